@@ -22,6 +22,51 @@ def states_term(states):
     """states: list of lists of 'r.d.t' strings"""
     return "[" + "; ".join("[" + "; ".join("mkItem %s %s %s" % tuple(it.split(".")) for it in st) + "]" for st in states) + "]"
 
+def closure_order(case, states):
+    """Untrusted preprocessing for the order-sensitive checks (closure_generatedb / lookahead_generatedb): the real code dumps a state's
+    items in index order; reorder each state so that kernel items come first and every dot-0 item comes after an item that
+    justifies it (dot before its left side, lookahead in FIRST of what follows). The Coq check then verifies the order; items
+    that nothing justifies are put last, where the check rejects them."""
+    rs = case["rs"]; ri = case["ri"]; ntc = case["ntc"]
+    nullable = [False] * ntc; first = [set() for _ in range(ntc)]
+    ch = True
+    while ch:
+        ch = False
+        for (l, r, n) in ri:
+            alln = True
+            for (t, i) in rs[r]:
+                if t:
+                    if i not in first[l]: first[l].add(i); ch = True
+                    alln = False; break
+                new = first[i] - first[l]
+                if new: first[l] |= new; ch = True
+                if not nullable[i]: alln = False; break
+            if alln and not nullable[l]: nullable[l] = True; ch = True
+    def first_tail(beta, a):
+        out = set()
+        for (t, i) in beta:
+            if t: out.add(i); return out
+            out |= first[i]
+            if not nullable[i]: return out
+        out.add(a); return out
+    res = []
+    for sidx, st in enumerate(states):
+        items = [tuple(map(int, it.split("."))) for it in st]
+        root_ri = len(ri) - 1
+        placed = [it for it in items if it[1] > 0 or (sidx == 0 and it[0] == root_ri)]
+        rest = [it for it in items if it not in placed]
+        ch = True
+        while ch and rest:
+            ch = False
+            for it in list(rest):
+                B = ri[it[0]][0]
+                for p in placed:
+                    rhs = rs[ri[p[0]][1]]
+                    if p[1] < len(rhs) and tuple(rhs[p[1]]) == (0, B) and it[2] in first_tail(rhs[p[1] + 1:], p[2]):
+                        placed.append(it); rest.remove(it); ch = True; break
+        res.append(["%d.%d.%d" % it for it in placed + rest])
+    return res
+
 KINDS = ["KError", "KSuccess", "KShift", "KShiftErr", "KReduce", "KRR"]
 def table_term(rows):
     def e(k, a, s): return f"mkE {KINDS[k]} {'None' if a < 0 else '(Some %d)' % a} {'true' if s else 'false'}"
